@@ -131,7 +131,8 @@ def c_formula(ctx, case):
 
 def g_shapes(draw):
     C, F = gen.dims(draw)
-    p = gen.gmm_params(draw, C, F, allow_zero_floor=True)
+    # means up to 1e6 standard deviations from the origin: an expanded quadratic form would cancel there
+    p = gen.gmm_params(draw, C, F, allow_zero_floor=True, kmax=gen.choice(draw, [30.0, 1e3, 1e6]))
     n = gen.integer(draw, 1, 24 if gen.big() else 10)
     X, kind = gen.data_from(draw, p, n)
     chunks = gen.composition(draw, n)
